@@ -18,6 +18,8 @@ pub const PASSES: &str = "Z8";
 #[derive(Clone, Debug, PartialEq)]
 pub enum E {
     N(i64),
+    /// n/4 written as a decimal literal (0.25, 2.5, ...)
+    Q(i64),
     V(String),
     Bin(Box<E>, &'static str, Box<E>),
     Neg(Box<E>),
@@ -52,6 +54,8 @@ pub enum St {
     Def(usize, Vec<String>, E),
     Tron,
     Troff,
+    /// INPUT [,]["prompt";] vars  (prompt, leading comma = caps off, numeric variables)
+    Input(Option<String>, bool, Vec<String>),
     /// raw command text with `{}` placeholders for line-number operands (never executed by the model)
     Cmd(&'static str, Vec<usize>),
 }
@@ -68,6 +72,8 @@ pub struct Prog {
     pub lines: Vec<Line>,
     /// label -> line number
     pub nums: BTreeMap<usize, u16>,
+    /// replies typed at INPUT prompts, in order
+    pub replies: Vec<String>,
 }
 
 #[derive(Clone, Copy)]
@@ -77,10 +83,14 @@ pub struct Opts {
     pub tron: bool,
     pub stop: bool,
     pub max_lines: usize,
+    /// INPUT statements (the program then carries a reply script)
+    pub input: bool,
+    /// fractional (dyadic) constants, `/2`, raw numeric IF / WHILE predicates, fractional STEP
+    pub frac: bool,
 }
 
 impl Opts {
-    pub const CONTROL: Opts = Opts { data: false, func: false, tron: false, stop: true, max_lines: 40 };
+    pub const NONE: Opts = Opts { data: false, func: false, tron: false, stop: false, max_lines: 40, input: false, frac: false };
 }
 
 struct G<'a> {
@@ -94,6 +104,7 @@ struct G<'a> {
     nfn: usize,
     fn_arity: Vec<usize>,
     budget: i64,
+    input_arity: usize,
 }
 
 impl<'a> G<'a> {
@@ -109,6 +120,9 @@ impl<'a> G<'a> {
     fn atom(&mut self, params: &[String]) -> E {
         if !params.is_empty() && self.rng.chance(1, 2) {
             return E::V(self.rng.pick(params).clone());
+        }
+        if self.o.frac && self.rng.chance(1, 6) {
+            return E::Q(*self.rng.pick(&[1i64, 2, 3, 5, 6, 10, -2, 1, 2]));
         }
         match self.rng.usize(5) {
             0 | 1 => E::N(self.rng.range(0, 9)),
@@ -130,7 +144,17 @@ impl<'a> G<'a> {
                 "MOD",
                 Box::new(E::N(self.rng.range(2, 7))),
             ),
-            6 => E::Neg(Box::new(self.atom(params))),
+            6 => {
+                // unary minus of a variable that is still 0 gives -0, which the model does not judge:
+                // mostly negate non-zero constants, sometimes a variable
+                let a = self.atom(params);
+                match a {
+                    E::N(0) | E::Q(0) => E::N(self.rng.range(1, 9)),
+                    E::V(_) if !self.rng.chance(1, 4) => E::Bin(Box::new(E::N(0)), "-", Box::new(a)),
+                    _ => E::Neg(Box::new(a)),
+                }
+            }
+            8 if self.o.frac => E::Bin(Box::new(self.expr(depth - 1, params)), "/", Box::new(E::N(*self.rng.pick(&[2i64, 4])))),
             7 if self.o.func && self.nfn > 0 && depth >= 1 => {
                 let k = self.rng.usize(self.nfn);
                 let n = self.fn_arity[k];
@@ -139,6 +163,19 @@ impl<'a> G<'a> {
             }
             _ => self.cond(params),
         }
+    }
+
+    /// predicate of IF / WHILE: mostly a comparison, with `frac` also a raw number
+    fn pred(&mut self) -> E {
+        if self.o.frac && self.rng.chance(1, 4) {
+            return match self.rng.usize(4) {
+                0 => E::V(self.var()),
+                1 => E::Q(*self.rng.pick(&[1i64, 2, 3, 0, -1, 4])),
+                2 => E::Bin(Box::new(E::V(self.var())), "/", Box::new(E::N(4))),
+                _ => E::Bin(Box::new(E::V(self.var())), "-", Box::new(E::Q(*self.rng.pick(&[2i64, 6, 1])))),
+            };
+        }
+        self.cond(&[])
     }
 
     fn cond(&mut self, params: &[String]) -> E {
@@ -192,7 +229,8 @@ impl<'a> G<'a> {
                 let then = self.arm(fwd, in_sub, sub_from);
                 let dangling = matches!(then.last(), Some(St::If(_, _, None)));
                 let els = if !dangling && self.rng.chance(1, 2) { Some(self.arm(fwd, in_sub, sub_from)) } else { None };
-                v.push(St::If(self.cond(&[]), then, els));
+                let c = self.pred();
+                v.push(St::If(c, then, els));
             }
             2 if !fwd.is_empty() => v.push(St::Goto(*self.rng.pick(fwd))),
             3 if sub_from < self.nsubs => {
@@ -220,6 +258,16 @@ impl<'a> G<'a> {
             6 if self.o.data => {
                 let n = self.rng.range(1, 3) as usize;
                 v.push(St::Read((0..n).map(|_| self.var()).collect()));
+            }
+            7 | 8 if self.o.input => {
+                let vars = (0..self.input_arity).map(|_| self.var()).collect();
+                let prompt = match self.rng.usize(3) {
+                    0 => None,
+                    1 => Some("N".to_string()),
+                    _ => Some("how many, é".to_string()),
+                };
+                let at = self.rng.usize(v.len() + 1);
+                v.insert(at, St::Input(prompt, self.rng.chance(1, 4), vars));
             }
             _ => {}
         }
@@ -254,7 +302,8 @@ impl<'a> G<'a> {
                 // nested IF: ELSE binds to the innermost
                 let t = vec![self.simple()];
                 let e = if self.rng.coin() { Some(vec![self.simple()]) } else { None };
-                v.push(St::If(self.cond(&[]), t, e));
+                let c = self.pred();
+                v.push(St::If(c, t, e));
             }
             _ => {
                 v.push(self.simple());
@@ -283,7 +332,8 @@ impl<'a> G<'a> {
             if kind == 0 && depth > 0 && self.loopv < LOOPV.len() {
                 let v = LOOPV[self.loopv].to_string();
                 self.loopv += 1;
-                let (a, b, s) = match self.rng.usize(4) {
+                let (a, b, s) = match if self.o.frac && self.rng.chance(1, 4) { 9 } else { self.rng.usize(4) } {
+                    9 => (E::N(self.rng.range(0, 2)), E::Q(self.rng.range(2, 9)), Some(E::Q(*self.rng.pick(&[2i64, 3, 1, 6])))),
                     0 => (E::N(self.rng.range(0, 3)), E::N(self.rng.range(0, 5)), None),
                     1 => (E::N(self.rng.range(3, 6)), E::N(self.rng.range(0, 3)), Some(E::N(-self.rng.range(1, 2)))),
                     2 => (
@@ -374,7 +424,9 @@ pub fn generate(rng: &mut Rng, o: Opts) -> Prog {
         nfn: 0,
         fn_arity: vec![],
         budget: o.max_lines as i64 / 2,
+        input_arity: 1,
     };
+    g.input_arity = g.rng.range(1, 2) as usize;
     for _ in 0..nsubs {
         let l = g.label();
         g.sub_labels.push(l);
@@ -440,7 +492,31 @@ pub fn generate(rng: &mut Rng, o: Opts) -> Prog {
         lines.append(&mut main);
         lines.append(&mut subs);
     }
-    let mut p = Prog { lines, nums: BTreeMap::new() };
+    let mut replies: Vec<String> = vec![];
+    if o.input {
+        for _ in 0..14 {
+            let field = |r: &mut Rng| -> String {
+                match r.usize(10) {
+                    0 => String::new(),
+                    1 => format!(" {} ", r.range(0, 9)),
+                    2 => "2.5".to_string(),
+                    3 => format!("-{}", r.range(1, 9)),
+                    4 => ".25".to_string(),
+                    _ => r.range(0, 12).to_string(),
+                }
+            };
+            let good: Vec<String> = (0..g.input_arity).map(|_| field(g.rng)).collect();
+            let r = match g.rng.usize(9) {
+                0 => "x".to_string(),
+                1 => format!("{},7", good.join(",")),
+                2 if g.input_arity > 1 => good[0].clone(),
+                3 => "1 2".to_string(),
+                _ => good.join(","),
+            };
+            replies.push(r);
+        }
+    }
+    let mut p = Prog { lines, nums: BTreeMap::new(), replies };
     let start = g.rng.range(1, 30) as u16;
     let step = *g.rng.pick(&[1u16, 2, 5, 10, 10, 10, 17, 100]);
     p.number(start, step);
@@ -575,6 +651,16 @@ impl<'a> Render<'a> {
                     format!("({})", n)
                 } else {
                     n.to_string()
+                }
+            }
+            E::Q(n) => {
+                let t = format!("{}", (*n as f64 / 4.0).abs());
+                let t = if self.ch(2) == 1 { t.trim_start_matches('0').to_string() } else { t };
+                let t = if t.is_empty() || t == "." { "0".to_string() } else { t };
+                if *n < 0 {
+                    format!("(-{})", t)
+                } else {
+                    t
                 }
             }
             E::V(v) => self.w(v),
@@ -769,6 +855,20 @@ impl<'a> Render<'a> {
             }
             St::Tron => self.w("TRON"),
             St::Troff => self.w("TROFF"),
+            St::Input(prompt, comma, vars) => {
+                let mut o = self.w("INPUT");
+                if *comma {
+                    o.push(',');
+                } else {
+                    o.push_str(self.osp());
+                }
+                if let Some(p) = prompt {
+                    o.push_str(&format!("\"{}\";", p));
+                }
+                let names: Vec<String> = vars.iter().map(|v| self.w(v)).collect();
+                o.push_str(&names.join(","));
+                o
+            }
             St::Cmd(f, ls) => {
                 let mut o = String::new();
                 let mut it = ls.iter();
@@ -814,7 +914,7 @@ impl<'a> Render<'a> {
 
 fn level(op: &str) -> u8 {
     match op {
-        "*" => 11,
+        "*" | "/" => 11,
         "MOD" => 9,
         "+" | "-" => 8,
         "AND" => 5,
@@ -849,14 +949,14 @@ pub struct ModelRun {
     pub end: End,
     pub steps: u64,
     pub kinds: Vec<&'static str>,
-    pub vars: BTreeMap<String, i64>,
+    pub vars: BTreeMap<String, f64>,
     pub max_depth: usize,
     /// (open FOR frames, open GOSUB frames) each time the marker variable Z9 was assigned
     pub shape_log: Vec<(u32, u32)>,
 }
 
 enum Frame {
-    For { var: String, to: i64, step: i64, resume: Pos },
+    For { var: String, to: f64, step: f64, resume: Pos },
     Gosub { resume: Pos },
 }
 
@@ -868,12 +968,19 @@ struct Pos {
     idx: usize,
 }
 
-const LIM: i64 = 16000;
+const LIM: f64 = 16000.0;
+
+/// Values the model stands behind: dyadic rationals with denominator <= 64 (exact in f32 and in
+/// every intermediate type), magnitude <= LIM.
+fn exact(v: f64) -> bool {
+    v.abs() <= LIM && (v * 64.0).fract() == 0.0
+}
 
 struct M<'a> {
     p: &'a Prog,
-    vars: BTreeMap<String, i64>,
+    vars: BTreeMap<String, f64>,
     out: String,
+    rpos: usize,
     col: usize,
     stack: Vec<Frame>,
     data: Vec<(usize, i64)>,
@@ -900,19 +1007,20 @@ impl<'a> M<'a> {
         self.p.lines.iter().position(|l| l.label == label)
     }
 
-    fn eval(&self, e: &E, env: &BTreeMap<String, i64>, depth: usize, ln: u16) -> R<i64> {
+    fn eval(&self, e: &E, env: &BTreeMap<String, f64>, depth: usize, ln: u16) -> R<f64> {
         if depth > 40 {
             return Err(End::Unspec("fn depth"));
         }
-        let v = match e {
-            E::N(n) => *n,
+        let v: f64 = match e {
+            E::N(n) => *n as f64,
+            E::Q(n) => *n as f64 / 4.0,
             E::V(v) => match env.get(v) {
                 Some(x) => *x,
-                None => *self.vars.get(v).unwrap_or(&0),
+                None => *self.vars.get(v).unwrap_or(&0.0),
             },
             E::Neg(x) => {
                 let v = self.eval(x, env, depth, ln)?;
-                if v == 0 {
+                if v == 0.0 {
                     // -0 of a Single: how it prints is not this model's business
                     return Err(End::Unspec("negative zero"));
                 }
@@ -939,32 +1047,44 @@ impl<'a> M<'a> {
             E::Bin(l, op, r) => {
                 let a = self.eval(l, env, depth, ln)?;
                 let b = self.eval(r, env, depth, ln)?;
+                let t = |c: bool| if c { -1.0 } else { 0.0 };
                 match *op {
                     "+" => a + b,
                     "-" => a - b,
                     "*" => {
-                        if a * b == 0 && (a < 0 || b < 0) {
+                        if a * b == 0.0 && (a < 0.0 || b < 0.0) {
                             return Err(End::Unspec("negative zero"));
                         }
                         a * b
                     }
+                    "/" => {
+                        if b == 0.0 {
+                            return Err(End::Unspec("division"));
+                        }
+                        if a == 0.0 && b < 0.0 {
+                            return Err(End::Unspec("negative zero"));
+                        }
+                        a / b
+                    }
                     "MOD" => {
-                        if b == 0 {
+                        // both operands are floor-converted to Integers first
+                        let (ai, bi) = (a.floor() as i64, b.floor() as i64);
+                        if bi == 0 {
                             return Err(End::Error("DIVISION BY ZERO", ln));
                         }
-                        a % b
+                        (ai % bi) as f64
                     }
-                    "<" => -((a < b) as i64),
-                    "=" => -((a == b) as i64),
-                    "<>" => -((a != b) as i64),
-                    ">" => -((a > b) as i64),
-                    "<=" => -((a <= b) as i64),
-                    ">=" => -((a >= b) as i64),
+                    "<" => t(a < b),
+                    "=" => t(a == b),
+                    "<>" => t(a != b),
+                    ">" => t(a > b),
+                    "<=" => t(a <= b),
+                    ">=" => t(a >= b),
                     _ => return Err(End::Unspec("op")),
                 }
             }
         };
-        if v.abs() > LIM {
+        if !exact(v) {
             return Err(End::Unspec("magnitude"));
         }
         Ok(v)
@@ -1041,11 +1161,13 @@ impl<'a> M<'a> {
         }
     }
 
-    fn numstr(n: i64) -> String {
-        if n < 0 {
-            format!("-{} ", -n)
+    fn numstr(n: f64) -> String {
+        // exact dyadic values: the shortest decimal is the exact one
+        let t = if n.fract() == 0.0 { format!("{}", n.abs() as i64) } else { format!("{}", n.abs() as f32) };
+        if n < 0.0 {
+            format!("-{} ", t)
         } else {
-            format!(" {} ", n)
+            format!(" {} ", t)
         }
     }
 
@@ -1105,7 +1227,7 @@ impl<'a> M<'a> {
                 }
             }
             St::On(e, sub, ls) => {
-                let k = self.eval(e, &none, 0, ln)?;
+                let k = self.eval(e, &none, 0, ln)?.floor() as i64;
                 if k < 0 {
                     return Err(End::Error("ILLEGAL FUNCTION CALL", ln));
                 }
@@ -1124,7 +1246,7 @@ impl<'a> M<'a> {
             St::If(c, _t, e) => {
                 let v = self.eval(c, &none, 0, ln)?;
                 let mut path = pos.path.clone();
-                if v != 0 {
+                if v != 0.0 {
                     self.kinds.insert("IF-then");
                     path.push((pos.idx, 0));
                     return Ok(Flow::Jump(Pos { line: pos.line, path, idx: 0 }));
@@ -1145,7 +1267,7 @@ impl<'a> M<'a> {
                 let to = self.eval(b, &none, 0, ln)?;
                 let step = match s {
                     Some(s) => self.eval(s, &none, 0, ln)?,
-                    None => 1,
+                    None => 1.0,
                 };
                 self.stack.push(Frame::For { var: v.clone(), to, step, resume: self.after(pos) });
             }
@@ -1163,12 +1285,12 @@ impl<'a> M<'a> {
                                         continue;
                                     }
                                 }
-                                let x = self.vars.get(&var).copied().unwrap_or(0) + step;
-                                if x.abs() > LIM {
+                                let x = self.vars.get(&var).copied().unwrap_or(0.0) + step;
+                                if !exact(x) {
                                     return Err(End::Unspec("magnitude"));
                                 }
                                 self.vars.insert(var.clone(), x);
-                                let done = if step < 0 { x < to } else { x > to };
+                                let done = if step < 0.0 { x < to } else { x > to };
                                 if done {
                                     self.kinds.insert("NEXT-exit");
                                     break;
@@ -1184,7 +1306,7 @@ impl<'a> M<'a> {
             }
             St::While(c) => {
                 let v = self.eval(c, &none, 0, ln)?;
-                if v == 0 {
+                if v == 0.0 {
                     self.kinds.insert("WHILE-exit");
                     for (w, e) in &self.whiles {
                         if w == pos {
@@ -1223,7 +1345,7 @@ impl<'a> M<'a> {
                     if self.dpos >= self.data.len() {
                         return Err(End::Error("OUT OF DATA", ln));
                     }
-                    let x = self.data[self.dpos].1;
+                    let x = self.data[self.dpos].1 as f64;
                     self.dpos += 1;
                     self.vars.insert(v.clone(), x);
                 }
@@ -1251,6 +1373,48 @@ impl<'a> M<'a> {
                 self.traced = Some(pos.line);
             }
             St::Troff => self.tron = false,
+            St::Input(prompt, comma, vars) => {
+                self.kinds.insert("INPUT");
+                loop {
+                    let shown = format!("{}? ", prompt.clone().unwrap_or_default());
+                    self.out.push_str(&format!("<INPUT {:?} caps={}>", shown, !*comma));
+                    self.col = 0;
+                    let reply = match self.p.replies.get(self.rpos) {
+                        Some(r) => r.clone(),
+                        None => return Err(End::Unspec("replies")),
+                    };
+                    self.rpos += 1;
+                    let fields: Vec<&str> = if vars.len() == 1 { vec![reply.as_str()] } else { reply.split(',').collect() };
+                    let mut vals: Vec<f64> = vec![];
+                    let mut ok = fields.len() == vars.len();
+                    if ok {
+                        for f in &fields {
+                            let f = f.trim();
+                            if f.is_empty() {
+                                vals.push(0.0);
+                            } else if f.chars().all(|c| c.is_ascii_digit() || c == '.' || c == '-') {
+                                match f.parse::<f64>() {
+                                    Ok(x) if exact(x) && !(x == 0.0 && f.starts_with('-')) => vals.push(x),
+                                    _ => return Err(End::Unspec("reply")),
+                                }
+                            } else {
+                                ok = false;
+                                break;
+                            }
+                        }
+                    }
+                    // fields before the bad one have been assigned already when the reply is rejected
+                    for (v, x) in vars.iter().zip(vals.iter()) {
+                        self.vars.insert(v.clone(), *x);
+                    }
+                    if ok {
+                        self.kinds.insert("INPUT-accepted");
+                        break;
+                    }
+                    self.kinds.insert("INPUT-redo");
+                    self.out.push_str("?REDO FROM START\n");
+                }
+            }
             St::Cmd(..) => return Err(End::Unspec("command")),
         }
         Ok(Flow::Next)
@@ -1262,6 +1426,7 @@ pub fn model_run(p: &Prog, max_steps: u64) -> ModelRun {
         p,
         vars: BTreeMap::new(),
         out: String::new(),
+        rpos: 0,
         col: 0,
         stack: vec![],
         data: vec![],
